@@ -782,7 +782,7 @@ func (ex *Exec) registerGo(st *State, fr *Frame, in *ssa.Go) {
 		ex.sched = &sched{}
 	}
 	c := ex.spawnCont(fr, &in.Call)
-	g := &goroutine{id: len(ex.sched.gs), name: c.top().fn.String(), alts: []galt{{guard: smt.True, c: c}}}
+	g := &goroutine{id: len(ex.sched.gs), name: c.top().fn.String(), alts: []galt{{guard: st.pc, c: c}}}
 	ex.sched.gs = append(ex.sched.gs, g)
 }
 
@@ -824,4 +824,36 @@ func (ex *Exec) recvWaiting(st *State, obj int) *smt.Term {
 		}
 	}
 	return r
+}
+
+// DescribeFinal reports, for a model, where every goroutine stands at the end of the unrolling (debugging aid and
+// part of the counterexample report).
+func (ex *Exec) DescribeFinal(model map[string]uint64) []string {
+	if ex.sched == nil {
+		return nil
+	}
+	memo := map[int]uint64{}
+	var out []string
+	for _, g := range ex.sched.gs {
+		for _, a := range g.alts {
+			if smt.Eval(a.guard, model, memo) == 0 {
+				continue
+			}
+			if a.c == nil {
+				out = append(out, fmt.Sprintf("g%d %s: terminated", g.id, shortName(g.name)))
+				continue
+			}
+			f := a.c.top()
+			pos := ex.Prog.Fset.Position(f.blk.Instrs[f.idx].Pos())
+			out = append(out, fmt.Sprintf("g%d %s: stopped at %s (%s:%d) in %s", g.id, shortName(g.name), blockingOp(f.blk.Instrs[f.idx]), shortFile(pos.Filename), pos.Line, shortName(f.fn.String())))
+		}
+	}
+	return out
+}
+
+func shortName(s string) string {
+	if i := strings.LastIndex(s, "/"); i >= 0 {
+		return s[i+1:]
+	}
+	return s
 }
